@@ -119,6 +119,14 @@ def gen_obs(R, world, n_max, allow_zero_rate_bins):
     n = R.choice((0, 0, 1, 2, R.randint(0, n_max), R.randint(0, n_max)))
     pool = allb if allow_zero_rate_bins else pos
     evs = []
+    if R.random() < 0.04:
+        # one very crowded bin (hundreds of events): the log-factorial term for large counts
+        i, k = R.choice(pos)
+        for j in range(R.randint(171, 230)):
+            ev, _, _ = gen.gen_event(R, region, mags, cell=i, mbin=k, eid='o%d' % j, start_ms=world['start_ms'],
+                                     end_ms=world['end_ms'])
+            evs.append(ev)
+        return evs
     for j in range(n):
         i, k = R.choice(pool)
         if evs and R.random() < 0.3:      # several events per bin
@@ -180,7 +188,7 @@ def generate(R, tier, focus):
     wide = focus == 'C16' and R.random() < 0.4
     rates = gen_rates(R, nc, nm, binary_focus, wide=wide)
     world = {'region': region, 'mags': mags, 'rates': rates, 'start_ms': gen.T0_MS,
-             'end_ms': gen.T0_MS + gen.YEAR_MS}
+             'end_ms': gen.T0_MS + gen.YEAR_MS, 'layout': R.choice(('C', 'C', 'C', 'F', 'T'))}
     n_max = 30 if not thorough else R.choice((30, 100, 300))
     n_pos = sum(1 for row in rates for v in row if v > 0)
     obs = []
@@ -215,6 +223,15 @@ def generate(R, tier, focus):
         pool = list(POISSON_TESTS) + list(BINARY_TESTS) + (list(CAT_TESTS) if cf else [])
     else:
         pool = list(POISSON_TESTS) + list(BINARY_TESTS)
+    # a second forecast on the same cells listed in another order (rates permuted alike): the same observed-catalog
+    # object is re-bound to whichever forecast an evaluation uses (per-catalog caches must follow the region)
+    alt_perm = None
+    if nc > 1 and R.random() < 0.3:
+        alt_perm = list(range(nc))
+        R.shuffle(alt_perm)
+    world['alt_perm'] = alt_perm
+    world['bench'] = [[10 ** R.uniform(-3, 1) for _ in row] for row in rates]
+    wB = alt_world(world) if alt_perm else None
     seeds = [None, 0, 1, 2 ** 32 - 1, R.randint(2, 10 ** 6)]
     n_ops = R.randint(1, 7) if not thorough else R.randint(1, 14)
     ops = []
@@ -228,33 +245,45 @@ def generate(R, tier, focus):
             t['p_overrides'] = {}
             ops.append(t)
             continue
-        if x < 0.45:
+        if x < 0.42:
             if R.random() < 0.5:
                 ops.append({'op': 'NOISE', 'kind': 'draw', 'n': R.randint(1, 9)})
             else:
                 ops.append({'op': 'NOISE', 'kind': 'reseed', 'seed': R.choice((0, 1, 12345, 2 ** 32 - 1))})
             continue
+        which = 'B' if wB is not None and R.random() < 0.4 else 'A'
+        if x < 0.52:
+            # another component uses the same forecast object between evaluations
+            what = R.choice(('T', 'T_scaled', 'TARGET_scaled', 'N', 'READS', 'SCALE', 'SCALE'))
+            o = {'op': 'OTHER', 'what': what, 'fc': which, 'obs': R.randrange(len(obs))}
+            if what == 'SCALE':
+                o['v'] = R.choice((1, 0.5, 2, 3.25, 0.1, 1.0))
+                templates = []          # results before and after a re-scaling are different functions
+            ops.append(o)
+            continue
+        wr = wB if which == 'B' else world
+        rates_w, region_w = wr['rates'], wr['region']
         test = R.choice(pool)
         oi = R.randrange(len(obs))
         nsim = R.randint(1, 12) if not thorough else R.choice((1, 5, 25, 100))
-        op = {'op': 'TEST', 'test': test, 'obs': oi, 'seed': R.choice(seeds), 'nsim': nsim,
+        op = {'op': 'TEST', 'test': test, 'obs': oi, 'seed': R.choice(seeds), 'nsim': nsim, 'fc': which,
               'mode': 'rng', 'overrides': {}, 'p_overrides': {}}
         if test in CAT_TESTS:
             op['seed'] = R.choice((0, 0, 1, 7, None))
             ops.append(op)
             templates.append(op)
             continue
-        counts = grid_counts(obs[oi]['events'], region, mags)
+        counts = grid_counts(obs[oi]['events'], region_w, mags)
         fc = flat_counts(test, counts)
         n_obs = int(fc.sum())
         n_active = int((fc > 0).sum())
         if test in BINARY_TESTS:
-            npos_t = int((flat_rates(test, rates) > 0).sum())
+            npos_t = int((flat_rates(test, rates_w) > 0).sum())
             if n_active > npos_t:
                 continue        # no valid simulated catalog exists: property vacuous
-            if wide or liveness_budget(test, rates, n_active, nsim) >= 100000:
+            if wide or liveness_budget(test, rates_w, n_active, nsim) >= 100000:
                 # legitimately long coupon-collector loop: drive the simulation through random_numbers=
-                rows = inject_rows_for(R, test, rates, n_active, nsim)
+                rows = inject_rows_for(R, test, rates_w, n_active, nsim)
                 if rows is None:
                     continue
                 op['mode'] = 'inject'
@@ -265,46 +294,48 @@ def generate(R, tier, focus):
             n_per_sim = n_active
         else:
             n_per_sim = n_obs
-        if test != 'L' and R.random() < 0.25:
+        if test != 'L' and R.random() < 0.25 and n_per_sim <= 40:
             # the library's own injection seam
             op['mode'] = 'inject'
-            w = float_weights(flat_rates(test, rates))
+            w = float_weights(flat_rates(test, rates_w))
             one_minus = float(numpy.nextafter(1.0, 0.0))
             specials = [0.0, one_minus] + [float(x) for x in w if x < 1.0] + \
                 [float(numpy.nextafter(x, 0.0)) for x in w if 0 < x <= 1.0]
             rows = []
-            for s in range(nsim):
+            for s_ in range(nsim):
                 row = []
-                for j in range(n_per_sim):
+                for j_ in range(n_per_sim):
                     row.append(R.choice(specials) if R.random() < 0.3 else R.random())
                 rows.append(row)
-            if test in BINARY_TESTS:
-                # injected rows must name n_active *distinct* cells to be a valid binary catalog
-                icdf = models.InverseCDF(flat_rates(test, rates).tolist())
-                ok = True
-                for row in rows:
-                    bins = [icdf.place(u) for u in row]
-                    if any(a for _, a in bins) or len({b[0] for b, _ in bins}) != len(row):
-                        ok = False
-                if not ok:
-                    op['mode'] = 'rng'
-                    rows = None
-            if op['mode'] == 'inject':
-                op['random_numbers'] = rows
-                op['ncol'] = n_per_sim
+            op['random_numbers'] = rows
+            op['ncol'] = n_per_sim
         if op['mode'] == 'rng':
-            op['overrides'] = gen_overrides(R, test, rates, max(1, n_per_sim) * nsim)
+            op['overrides'] = gen_overrides(R, test, rates_w, max(1, n_per_sim) * nsim)
             if test == 'L' and R.random() < 0.3:
-                op['p_overrides'] = {str(R.randrange(nsim)): [R.choice(('zero', 'one', 'large')), 0]}
-                for k, v in op['p_overrides'].items():
-                    tot = sum(sum(r) for r in rates)
-                    v[1] = {'zero': 0, 'one': 1, 'large': int(3 * tot) + 5}[v[0]]
+                tot = sum(sum(r) for r in rates_w)
+                kind = R.choice(('zero', 'zero', 'one', 'large'))
+                op['p_overrides'] = {str(R.randrange(nsim)): [kind, {'zero': 0, 'one': 1, 'large': int(3 * tot) + 5}[kind]]}
         ops.append(op)
         if op['mode'] == 'rng' and not op['overrides'] and not op['p_overrides']:
             templates.append(op)
     world.update({'engine': 'rngsim', 'obs': obs, 'cf': cf, 'ops': ops, 'tz': R.choice(TZ_CHOICES),
                   'initial_rng': R.randint(0, 2 ** 31 - 1)})
     return world
+
+
+def alt_world(world):
+    """the same forecast with its cells (and rate rows) listed in the order world['alt_perm']"""
+    w = dict(world)
+    perm = world['alt_perm']
+    reg = dict(world['region'])
+    if reg['kind'] == 'cart':
+        reg['origins'] = [world['region']['origins'][i] for i in perm]
+    else:
+        reg['quadkeys'] = [world['region']['quadkeys'][i] for i in perm]
+    w['region'] = reg
+    w['rates'] = [world['rates'][i] for i in perm]
+    w['bench'] = [world['bench'][i] for i in perm]
+    return w
 
 
 # --------------------------------------------------------------------------- model of one evaluation
@@ -369,10 +400,14 @@ def predict_poisson(test, rates2d, n_obs, nsim, calls, injected, ctx):
                 pos += 1
             else:
                 n_ev = n_obs
-            if pos >= len(calls) or calls[pos][0] not in ('rand', 'uniform', 'random_sample'):
-                raise StreamMismatch('%s:no-uniform-draws' % test, {'sim': s})
-            draws = numpy.asarray(calls[pos][2]).ravel().tolist()
-            pos += 1
+            if n_ev == 0 and (pos >= len(calls) or calls[pos][0] not in ('rand', 'uniform', 'random_sample')
+                              or numpy.size(calls[pos][2]) != 0):
+                draws = []          # nothing to draw: an implementation need not call the generator at all
+            else:
+                if pos >= len(calls) or calls[pos][0] not in ('rand', 'uniform', 'random_sample'):
+                    raise StreamMismatch('%s:no-uniform-draws' % test, {'sim': s})
+                draws = numpy.asarray(calls[pos][2]).ravel().tolist()
+                pos += 1
             if len(draws) != n_ev:
                 raise StreamMismatch('%s:wrong-number-of-events' % test, {'sim': s, 'drawn': len(draws), 'want': n_ev})
         base = [0] * len(flat)
@@ -405,15 +440,29 @@ def predict_binary(test, rates2d, n_active, nsim, calls, injected, ctx, max_path
     flat = flat_rates(test, rates2d).tolist()
     icdf = models.InverseCDF(flat)
     if injected is not None:
-        dist = []
+        # every injected number is placed (duplicates simply hit the same bin again); ambiguous placements are
+        # enumerated per simulation -> ('per-sim', [set of (value, tol)] ...)
+        per_sim = []
         for s in range(nsim):
-            active = [False] * len(flat)
+            base = set()
+            amb = []
             for u in injected[s]:
                 cands, a = icdf.place(u)
-                active[cands[0]] = True
-            cf = [1 if a else 0 for a in active]
-            dist.append((stat_of(test, rates2d, flat, cf, None), stat_tol(test, flat, cf)))
-        return [dist]
+                if a:
+                    amb.append(cands)
+                    ctx.count('rare:draw_within_slop_of_boundary')
+                else:
+                    base.add(cands[0])
+            if len(amb) > 4:
+                per_sim.append(None)
+                continue
+            vals = []
+            for combo in itertools.product(*amb):
+                act = base | set(combo)
+                cf = [1 if k in act else 0 for k in range(len(flat))]
+                vals.append((stat_of(test, rates2d, flat, cf, None), stat_tol(test, flat, cf)))
+            per_sim.append(vals)
+        return ('per-sim', per_sim)
     draws = []
     for c in calls:
         if c[0] not in ('uniform', 'rand', 'random_sample'):
@@ -516,19 +565,78 @@ def liveness_budget(test, rates2d, n_active, nsim):
 
 
 def _execute(scn, ctx, rng, collect_results):
-    rates = scn['rates']
-    region, mags = scn['region'], scn['mags']
-    fc = build.make_gridded(scn)
-    rates_before = hexf(numpy.array(fc.data))
-    memo = {}           # (test, obs, seed, nsim) -> first result rendering (determinism oracle)
+    mags = scn['mags']
+    worlds = {'A': scn}
+    if scn.get('alt_perm'):
+        worlds['B'] = alt_world(scn)
+        ctx.count('cfg:second_forecast_with_permuted_cells')
+    fcs = {k: build.make_gridded(w) for k, w in worlds.items()}
+    factor = {k: 1 for k in worlds}
+    shared_cats = {}
+
+    def cur_rates(k):
+        f = factor[k]
+        return [[v * f for v in row] for row in worlds[k]['rates']]
+
+    def obs_catalog(oi_, k):
+        # one catalog object per observed catalog, re-bound to the region of the forecast it is evaluated against
+        c = shared_cats.get(oi_)
+        if c is None:
+            c = build.make_catalog(scn['obs'][oi_]['events'], region=fcs[k].region, name='obs')
+            shared_cats[oi_] = c
+        c.region = fcs[k].region
+        return c
+    memo = {}           # (test, obs, seed, nsim, fc, factor) -> first result rendering (determinism oracle)
+    prev = 'start'      # abstract state of the shared generator as the next evaluation finds it
+    last_state = ('start',)
     for oi, op in enumerate(scn['ops']):
+        if op['op'] == 'TEST':
+            sk = 'none' if op['seed'] is None else ('zero' if op['seed'] == 0 else 'nonzero')
+            st = (op['test'], sk, op.get('mode', 'rng'), bool(op.get('overrides') or op.get('p_overrides')), prev)
+            ctx.state(st)
+            ctx.transition(last_state, 'eval', st)
+            last_state = st
+            prev = 'after-eval-seed-' + sk
         if op['op'] == 'NOISE':
+            prev = 'after-noise-' + op['kind']
             ctx.count('fire:noise_' + op['kind'])
             rng.mark(budget=HARD_CAP)
             if op['kind'] == 'draw':
                 numpy.random.rand(op['n'])
             else:
                 numpy.random.seed(op['seed'])
+            continue
+        which = op.get('fc', 'A') if op.get('fc', 'A') in worlds else 'A'
+        fc = fcs[which]
+        rates = cur_rates(which)
+        region = worlds[which]['region']
+        if op['op'] == 'OTHER':
+            from csep.core import poisson_evaluations as pe
+            what = op['what']
+            ctx.count('fire:other_component_' + what)
+            cat = obs_catalog(op['obs'], which)
+            rng.mark(budget=HARD_CAP)
+            if what == 'SCALE':
+                r = call(fc.scale, op['v'])
+                if r[0] == 'ok':
+                    factor[which] = op['v']
+                    rates = cur_rates(which)
+                    memo = {}
+            elif what in ('T', 'T_scaled'):
+                bench = build.make_gridded(worlds[which], rates=worlds[which]['bench'], name='bench')
+                r = call(pe.paired_t_test, fc, bench, cat, scale=(what == 'T_scaled'))
+            elif what == 'TARGET_scaled':
+                r = call(fc.target_event_rates, cat, scale=True)
+            elif what == 'N':
+                r = call(pe.number_test, fc, cat)
+            else:
+                r = call(lambda: (fc.spatial_counts(), fc.magnitude_counts(), fc.sum()))
+            if r[0] == 'exc':
+                ctx.count('other_component_exception:%s:%s' % (what, r[1]))
+            if hexf(numpy.array(fc.data)) != hexf(numpy.array(rates, dtype=float)):
+                ctx.violate(ctx.focus if ctx.focus in ('C05', 'C16') else 'C06', 'purity',
+                            '%s:forecast-rates-modified-by-another-call' % what, {'op': oi, 'factor': factor[which]})
+                return
             continue
         test = op['test']
         ctx.count('op:' + test + (':inject' if op.get('mode') == 'inject' else ''))
@@ -560,7 +668,7 @@ def _execute(scn, ctx, rng, collect_results):
                     ctx.count('rare:seed_given_but_rng_not_seeded')
             continue
         # ---------------- gridded tests ------------------------------------------------------------------
-        obs_cat = build.make_catalog(obs_events, region=fc.region, name='obs')
+        obs_cat = obs_catalog(op['obs'], which)
         counts = grid_counts(obs_events, region, mags)
         fcnt = flat_counts(test, counts)
         n_obs = int(fcnt.sum())
@@ -598,8 +706,9 @@ def _execute(scn, ctx, rng, collect_results):
             collect_results.append((oi, test, r[1]))
         dist = v['dist']
         ctx.log('test', oi, test, seed, v['obs'], v['quantile'], dist)
-        if hexf(numpy.array(fc.data)) != rates_before:
+        if hexf(numpy.array(fc.data)) != hexf(numpy.array(rates, dtype=float)):
             ctx.violate('C06', 'purity', '%s:forecast-rates-modified' % test, {'op': oi})
+            return
         # ---- observed statistic (C05 / C16) ------------------------------------------------------------
         want_obs = stat_of(test, rates, flat.tolist(), fcnt.tolist(), n_obs)
         prop_stat = 'C05' if test in POISSON_TESTS else 'C16'
@@ -615,7 +724,7 @@ def _execute(scn, ctx, rng, collect_results):
             ctx.violate(prop_stat, 'statistic', sig, {'op': oi, 'got': v['obs'], 'want': want_obs, 'n_obs': n_obs})
         # ---- simulated catalogs (C05/C16 value, C06 placement + conservation) ---------------------------
         if len(dist) != op['nsim']:
-            ctx.violate('C06', 'simulation_count', '%s:distribution-length' % test,
+            ctx.violate(ctx.focus if ctx.focus in ('C05', 'C16') else 'C06', 'simulation_count', '%s:distribution-length' % test,
                         {'op': oi, 'got': len(dist), 'want': op['nsim']})
         elif inject is None and not calls and op['nsim'] > 0 and (n_obs > 0 or test == 'L'):
             ctx.count('unobserved_rng_stream')      # library no longer uses the global entry points
@@ -640,9 +749,21 @@ def _execute(scn, ctx, rng, collect_results):
                     ctx.count('sims_checked', len(dist))
                 else:
                     preds = predict_binary(test, rates, n_active, op['nsim'], calls, inject, ctx)
+                    if isinstance(preds, tuple):
+                        for si, (got, cands) in enumerate(zip(dist, preds[1])):
+                            if cands is None:
+                                continue
+                            if not any(models.close(got, c[0], 1e-9, c[1]) for c in cands):
+                                ctx.violate('C16' if ctx.focus == 'C16' else 'C06',
+                                            'simulated_statistic' if ctx.focus == 'C16' else 'placement',
+                                            '%s:simulated-entry:injected' % test,
+                                            {'op': oi, 'sim': si, 'got': got, 'want': [c[0] for c in cands][:4],
+                                             'numbers': inject[si][:8]})
+                                break
+                        preds = None
                     def same(p):
                         return len(p) == len(dist) and all(models.close(g, w[0], 1e-9, w[1]) for g, w in zip(dist, p))
-                    if not any(same(p) for p in preds):
+                    if preds is not None and not any(same(p) for p in preds):
                         # attribute: value formula (C16) when un-perturbed stream, else placement (C06)
                         p0 = preds[-1]
                         first = next((s for s in range(len(dist)) if not models.close(dist[s], p0[s][0], 1e-9, p0[s][1])), 0)
@@ -663,7 +784,7 @@ def _execute(scn, ctx, rng, collect_results):
                             {'op': oi, 'got': q, 'want': want_q})
         # ---- determinism in (forecast, catalog, seed) ------------------------------------------------------
         if seed is not None and inject is None and not perturbed:
-            key = (test, op['obs'], seed, op['nsim'])
+            key = (test, op['obs'], seed, op['nsim'], which, repr(factor[which]))
             ren = hexf([v['obs'], q, dist])
             if key in memo:
                 ctx.count('determinism_pairs')
@@ -674,7 +795,7 @@ def _execute(scn, ctx, rng, collect_results):
             if n_seed_calls == 0 and calls:
                 ctx.count('rare:seed_given_but_rng_not_seeded')
         if inject is not None:
-            key = (test, op['obs'], 'inject', hexf(inject))
+            key = (test, op['obs'], 'inject', hexf(inject), which, repr(factor[which]))
             ren = hexf([v['obs'], q, dist])
             if key in memo and memo[key] != ren:
                 ctx.violate('C06', 'determinism', '%s:injected-numbers:depends-on-history' % test, {'op': oi})
@@ -778,7 +899,8 @@ class Engine:
                 'values >= a last cumulative weight that rounds below 1) or inject them through random_numbers=; every '
                 'simulated catalog is rebuilt from the recorded draws by an exact-rational inverse CDF. distinct = digest '
                 'of (lattice size, zero pattern, observed sizes, op list incl. seeds and overrides); non-trivial = at least '
-                'one simulated catalog was reconstructed and compared or one determinism pair was compared')
+                'one simulated catalog was reconstructed and compared or one determinism pair was compared; abstract state = '
+                '(test, seed kind, rng / injected, perturbed?, what happened to the shared generator just before)')
 
     @staticmethod
     def components():
